@@ -823,3 +823,31 @@ Proof.
   intros Hn Ht Hbs. split; [|apply keras_scores_single].
   apply (callable_batched _ (fun x => [f1 x]) 1); try assumption. intros. apply callable_1d; assumption.
 Qed.
+
+(* ---------- the container of the inputs: explainers (tf tensors) are fine for every batch size; metrics (NumPy arrays)
+   are fine with a batch size and fail with batch_size=None on callables / predict_proba objects ---------- *)
+Lemma callable_container_ok k (f : list Qc -> list Qc) K bs inputs targets :
+  1 <= length inputs -> targets_ok K inputs targets -> (forall x, length (f x) = K) -> bs_ok bs ->
+  (k = TfTensor \/ bs <> None) ->
+  batch_one_hot_callable_on k (model_2d f) bs inputs targets = Some (keras_scores f inputs targets).
+Proof.
+  intros Hn Ht Hf Hbs Hk. destruct (callable_equals_keras f K bs inputs targets Hn Ht Hf Hbs) as [H2 _].
+  destruct bs as [b|]; cbn [batch_one_hot_callable_on]; [exact H2|].
+  destruct Hk as [->|Hk]; [exact H2 | congruence].
+Qed.
+
+Lemma metric_callable_bs_none_fails model inputs targets :
+  batch_one_hot_callable_on metric_container model None inputs targets = None.
+Proof. reflexivity. Qed.
+
+Lemma metric_callable_bs_none_refuted :
+  exists (f : list Qc -> list Qc) inputs targets,
+    1 <= length inputs /\ targets_ok 1 inputs targets /\ (forall x, length (f x) = 1) /\
+    batch_one_hot_callable_on explainer_container (model_2d f) None inputs targets = Some (keras_scores f inputs targets) /\
+    batch_one_hot_callable_on metric_container (model_2d f) (Some 1) inputs targets = Some (keras_scores f inputs targets) /\
+    batch_one_hot_callable_on metric_container (model_2d f) None inputs targets <> Some (keras_scores f inputs targets).
+Proof.
+  exists (fun x => [nthq x 0]), [[q 1 2]], [[q 2 1]].
+  split; [cbn; lia|]. split; [split; [reflexivity | intros t [<-|[]]; reflexivity]|]. split; [reflexivity|].
+  split; [vm_compute; reflexivity|]. split; [vm_compute; reflexivity|]. discriminate.
+Qed.
